@@ -113,6 +113,10 @@ class WifDecoder:
             ValueError: If the resulting key is not valid
         """
 
+        # The net version is a single byte (ord() on any other length raises TypeError)
+        if len(net_ver) != 1:
+            raise ValueError(f"Invalid net version length ({len(net_ver)})")
+
         # Decode string
         priv_key_bytes = Base58Decoder.CheckDecode(wif_str)
 
